@@ -51,6 +51,10 @@ def gen_cases(tier, seed):
             case["fault"] = {"kind": str(rng.choice(["factor", "solve"])), "index": int(rng.integers(0, 25))}
         elif f < 0.65:
             case["fault"] = {"kind": "region", "radius": float(rng.uniform(0.3, 2.0))}
+        if cfgd["control"] == "Exact" and case.get("fault", {}).get("kind") in ("eval", "region") and rng.random() < 0.5:
+            # input validation switched off: the non-finite value is not turned into an evaluation error but
+            # reaches the controller's own acceptance test (a residual that is not a number is not "below tolerance")
+            case["cfg"]["validate_input"] = False
         cases.append(case)
     return cases
 
@@ -104,6 +108,8 @@ def run_case(case):
     res["ctr"].update({"trial_pairs": stats["pairs"], "rejections": stats["rejections"], "failures": stats["failures"],
                        "exact_accepts_checked": stats["exact_accepts_checked"], "faults_fired": int(fired),
                        "control_" + p.cfg["control"]: 1, "newton_" + p.cfg["newton"]: 1})
+    if fired and p.cfg["control"] == "Exact" and p.cfg.get("validate_input") is False:
+        res["ctr"]["exact_unvalidated_faults_fired"] = 1
     res["maxes"] = {"exact_residual_over_bound": stats["exact_worst_ratio_e6"] / 1e6}
     if cls == "raise:lamb_max":
         res["ctr"]["lamb_max_aborts"] = 1
@@ -122,10 +128,11 @@ def finalize(agg, tier):
         "rule": "QP/NLP/degenerate/nonconvex-singular/unbounded specs x random (controller with 35% extra weight on Exact, "
                 "Newton type, step solver, LU/GMRES, penalty, active-set rule, scaling) x lamb_max 3..1000 in 25% of the "
                 "runs x lamb_init, rho x injected failures in 65% of the runs (k-th evaluation of a component non-finite, "
-                "k-th factorisation/solve failing, all evaluations outside a ball around x0 non-finite); non-trivial = the "
+                "k-th factorisation/solve failing, all evaluations outside a ball around x0 non-finite; under exact control half of the evaluation faults run with validate_input=False so that the non-finite value reaches the controller's acceptance test); non-trivial = the "
                 "run contained at least one rejected or failed trial; distinct by spec seed",
         "floors": {"trial_pairs": 5000, "rejections": 300, "failures": 50, "lamb_max_aborts": 20,
-                   "exact_accepts_checked": 500, "faults_fired": 100, "resolves_checked": 40},
+                   "exact_accepts_checked": 500, "faults_fired": 100, "resolves_checked": 40,
+                   "exact_unvalidated_faults_fired": 15},
         "assumptions": ["exact-control residual bound newton_tol + sqrt(n)*1e-8 (activity threshold of the projection) "
                         "+ 1e-12 x magnitude"],
     }
